@@ -90,7 +90,30 @@ def label_table(F, rep, groups, f):
         if w not in [a["word"] for a in alts]:
             rep.bad(rule, "spelling-missing:" + w, "PEP 440 spelling %r is not an alternative of pre_l" % w, None)
     # upper-case input: the regex is case-insensitive, so the table must be too
-    if lowered: rep.ok(rule, "label text is lower-cased before the table lookup", nontrivial_key="lower")
+    # ... on every path: each text the table compares comes out of the lowering call, never straight from the parameter
+    raw = set()
+    if lowered:
+        for bi, t in table_fn.calls():
+            c_ = mir.callee(t) or ""
+            if not (c_.endswith("PartialEq>::eq") or c_.endswith("PartialEq<str>>::eq") or c_.endswith("::eq")) or len(t[2]) < 2: continue
+            if not any(isinstance(mir.const_arg(table_fn, a_), str) for a_ in t[2]): continue
+            for a_ in t[2]:
+                if isinstance(mir.const_arg(table_fn, a_), str): continue
+                def roots(op, depth=0):
+                    out = set()
+                    for o in mir.trace_op(table_fn, op, transparent=()):
+                        if o.kind == "call" and depth < 8:
+                            t2 = o.fn.blocks[o.data]["t"]; nm = (mir.callee(t2) or "").rsplit("::", 1)[-1]
+                            if nm in ("to_lowercase", "to_ascii_lowercase"): out.add("lowered")
+                            elif t2[2]: out |= roots(t2[2][0], depth + 1)
+                            else: out.add("call:" + nm)
+                        elif o.kind == "param": out.add("param")
+                        else: out.add(o.kind)
+                    return out
+                raw |= roots(a_)
+    if lowered and "param" in raw:
+        rep.bad(rule, "label-case-partial", "%s lower-cases the label on some paths only (the compared text can be the parameter as given): the regex matches labels case-insensitively, so a spelling such as rC or bETA misses the table and falls to the fallback %s" % (table_fn.path.rsplit("::", 1)[-1], fallback or sorted(default)), table_fn.where())
+    elif lowered: rep.ok(rule, "label text is lower-cased before the table lookup", nontrivial_key="lower")
     else: rep.bad(rule, "label-case", "the regex matches labels case-insensitively but the label table is consulted without lower-casing", table_fn.where())
     for gname in ("post_l", "dev_l"):
         gg = groups.get(gname)
